@@ -204,6 +204,41 @@ defaults of the installed SciPy for the ones it leaves out (`eps=0.0`, `leafsize
 periodic box regenerates another constant and this statement no longer holds.) -/
 theorem gen_tree_args_exact : Grid_get_localgrid_tree_args.exact := by decide
 
+/-! ### Which class's method every grid class executes (regenerated table `gridDispatch`) -/
+
+/-- One row of `gridDispatch` agrees with the class dispatch the model and the harness assume:
+* `get_localgrid` is the one of `Grid` for every class but `PeriodicGrid` (its own: C11) and
+  `MultiDomainGrid` (refuses);
+* `__getitem__` is the one of `Grid`, except `OneDGrid` and the rules deriving from it (the one of
+  `OneDGrid`), `MolGrid` (atom selection, another operation) and `PeriodicGrid` (its own);
+* the `points` / `weights` properties are the ones of `Grid`, except `AtomGrid` (own `points`
+  getter, **no setter**), `PeriodicGrid` (own `points` setter on `Grid`'s getter) and
+  `MultiDomainGrid`. -/
+def dispatchRowOk (r : String × String × String × String × String × String × String × String) : Bool :=
+  let (cls, mod, gl, gi, pg, ps, wg, ws) := r
+  (gl == "Grid" || (cls == "PeriodicGrid" && gl == "PeriodicGrid") ||
+      (cls == "MultiDomainGrid" && gl == "MultiDomainGrid")) &&
+  (if cls == "OneDGrid" || mod == "onedgrid" then gi == "OneDGrid"
+    else if cls == "MolGrid" then gi == "MolGrid"
+    else if cls == "PeriodicGrid" then gi == "PeriodicGrid"
+    else gi == "Grid") &&
+  (if cls == "AtomGrid" then pg == "AtomGrid" && ps == "-"
+    else if cls == "PeriodicGrid" then pg == "Grid" && ps == "PeriodicGrid"
+    else if cls == "MultiDomainGrid" then true
+    else pg == "Grid" && ps == "Grid") &&
+  (cls == "MultiDomainGrid" || (wg == "Grid" && ws == "Grid"))
+
+/-- (class dispatch, regenerated table) **No class of the package overrides `get_localgrid`** besides
+`PeriodicGrid` and the refusing `MultiDomainGrid`, `__getitem__` and the `points` / `weights`
+properties are overridden exactly where the model says, and the classes of the property are all
+there.  (A new `get_localgrid` / `__getitem__` / `points` in any subclass — e.g. a fast path for
+one-dimensional grids — regenerates another table and this statement no longer holds.) -/
+theorem gen_dispatch_pinned :
+    gridDispatch.all dispatchRowOk = true ∧
+    (["Grid", "LocalGrid", "OneDGrid", "AtomGrid", "MolGrid", "UniformGrid", "Tensor1DGrids",
+      "AngularGrid", "PeriodicGrid"].all fun c => gridDispatch.any fun r => r.1 == c) = true := by
+  decide +kernel
+
 /-! ### Non-vacuity and the rejected cases (`K = Int`) -/
 
 example : Grid_init (K := Int) ⟨2, [[0, 0], [3, 0]]⟩ ⟨1, [10, 20]⟩ =
